@@ -78,6 +78,13 @@ pub fn panic_kind(msg: &str) -> &'static str {
 /// `<file>/<panic kind>`
 pub fn site(loc: &str, msg: &str) -> String { format!("{}/{}", site_file(loc), panic_kind(msg)) }
 
+/// does some column of some node of the relation have an empty type (a range the WHERE clause has emptied)?  Part of the key of
+/// rewriting panics: the recorded defect is "an aggregate over an emptied range", not "any panic at that line".
+pub fn has_empty_range(rel: &qrlew::relation::Relation) -> bool {
+    use qrlew::{relation::Variant as _, data_type::DataTyped as _};
+    rel.schema().iter().any(|f| f.data_type().to_string().contains('∅')) || rel.inputs().iter().any(|i| has_empty_range(i))
+}
+
 /// the cause of a compile-time panic, when the message and the query text name it: a division (also inside tan = sin / cos) whose
 /// operand ranges contain 0; a function applied to a column whose range the WHERE clause has made empty
 pub fn compile_panic_cause(sql: &str, loc: &str, msg: &str) -> Option<&'static str> {
